@@ -789,17 +789,31 @@ class InterpBuiltins:
     def bi_effects(self, args, kw, line):
         return ConstSeq([ConstSeq([nme] + list(a), 'tuple') for nme, a in self.effects])
 
+    def _loop_markers(self, names):
+        from .loops import LoopEffects
+        return [a for nme, a in self.effects[len(self.effects_base):]
+                if isinstance(a, LoopEffects) and (not names or nme in names)]
+
     def bi_no_effect(self, args, kw, line):
-        """no_effect() : the ghost effect log is empty;  no_effect('send_start_process', ...) : none of these"""
-        if not args:
-            return len(self.effects) == len(self.effects_base)
-        return not any(nme in args for nme, _ in self.effects[len(self.effects_base):])
+        """no_effect() : the ghost effect log is empty;  no_effect('send_start_process', ...) : none of these.
+        Effects declared for the other iterations of a symbolic loop (loop<K>_effects) count as 'possibly emitted'."""
+        from .loops import LoopEffects
+        mine = [(nme, a) for nme, a in self.effects[len(self.effects_base):] if not args or nme in args]
+        if any(not isinstance(a, LoopEffects) for _, a in mine):
+            return False
+        if mine:
+            return self.bool_value(self.conj([z3.Not(a.some) for _, a in mine]))
+        return True
 
     def bi_count_effects(self, args, kw, line):
+        if self._loop_markers(args):
+            raise Unsupported('count_effects of an effect emitted inside a loop over a symbolic collection')
         return sum(1 for nme, _ in self.effects[len(self.effects_base):] if nme in args)
 
     def bi_effect_at(self, args, kw, line):
         nme, k = args[0], args[1] if len(args) > 1 else 0
+        if self._loop_markers((nme,)):
+            raise Unsupported('effect_at of an effect emitted inside a loop over a symbolic collection')
         sel = [a for n2, a in self.effects[len(self.effects_base):] if n2 == nme]
         return tuple(sel[k]) if k < len(sel) else None
 
